@@ -10,7 +10,8 @@ ROOT = os.path.dirname(os.path.dirname(os.path.abspath(__file__)))
 HARNESS = os.path.join(ROOT, "harness")
 TARGET = os.environ.get("VERIF_TARGET") or os.path.join(ROOT, "target")
 VRUN = os.path.join(TARGET, "debug", "vrun")
-VRUN_ENUM = os.path.join(ROOT, "target-enum", "debug", "vrun")
+TARGET_ENUM = os.environ.get("VERIF_TARGET_ENUM") or os.path.join(ROOT, "target-enum")
+VRUN_ENUM = os.path.join(TARGET_ENUM, "debug", "vrun")
 OUT = os.path.join(ROOT, "out")
 NPROC = int(os.environ.get("VERIF_NPROC", "16"))
 
@@ -46,8 +47,10 @@ def build(enum_too=False, packages=("vrun",)):
         cmd += ["-p", p]
     cmds = [(cmd, {})]
     if enum_too:
-        cmds.append((["cargo", "build", "--offline", "-p", "vrun", "--features", "enum",
-                      "--target-dir", os.path.join(ROOT, "target-enum")], {}))
+        # the enum value representation is a cargo feature of boa_engine: separate invocations and a separate target
+        # directory so that features do not unify with the default (NaN-boxed) build
+        for pkg in ("vrun", "vc12"):
+            cmds.append((["cargo", "build", "--offline", "-p", pkg, "--features", "enum", "--target-dir", TARGET_ENUM], {}))
     for cmd, _ in cmds:
         p = subprocess.run(cmd, cwd=HARNESS, env=cargo_env(), stdout=subprocess.PIPE, stderr=subprocess.STDOUT, text=True)
         if p.returncode != 0:
